@@ -324,6 +324,35 @@ func c13(x *mon.Ctx) {
 		}
 		add("tcb-element-order", name, "exact", p, world.Seq(top...), nil)
 	}
+	// ---- an out-of-range value in ANY order of the elements: in the orders above with one component (or the PCE SVN) replaced by
+	//      256, 300, 65535, 65536, -1 — an error wherever the element stands, whatever stands before it
+	{
+		names := []string{"reversed", "rotate16", "rotate17", "rotate1", "swap15-16", "swap16-17", "random0", "random1", "random2", "random3", "random4", "random5", "random6", "random7"}
+		n := 0
+		for _, name := range names {
+			o, ok := tcbOrders[name]
+			if !ok {
+				continue
+			}
+			for _, k := range []int{0, 7, 15} {
+				for _, v := range []int64{256, 300, 65535, 65536, -1} {
+					p := randPlat(r)
+					el := world.SgxTcbElems(p)
+					el[k] = world.Seq(world.OID(2, k+1), world.Int(v))
+					add("out-of-range-in-another-order", fmt.Sprintf("%s/comp%d=%d", name, k+1, v), "error", p, world.Seq(world.SgxTopElems(p, permute(el, o))...), nil)
+					n++
+				}
+			}
+			for _, v := range []int64{65536, 1 << 24, -1} {
+				p := randPlat(r)
+				el := world.SgxTcbElems(p)
+				el[16] = world.Seq(world.OID(2, 17), world.Int(v))
+				add("out-of-range-in-another-order", fmt.Sprintf("%s/pcesvn=%d", name, v), "error", p, world.Seq(world.SgxTopElems(p, permute(el, o))...), nil)
+				n++
+			}
+		}
+		x.Require("out-of-range-in-another-order", 0, n, n)
+	}
 	// ---- must-error
 	base := randPlat(r)
 	tcbE := world.SgxTcbElems(base)
